@@ -124,6 +124,8 @@ impl Child {
 #[derive(Clone, Copy, Debug, PartialEq, Eq)]
 pub enum TokKind {
     Out,
+    /// output without drop glue: not drop-tracked
+    OutPlain,
     Err,
     UpErr,
     MItem,
